@@ -53,9 +53,10 @@ type vResult struct {
 	t       reflect.Type
 	name    string
 	group   string
-	flatten int // 0 = not flattened, n>0 = flattened slice of n-1 elements
-	form    int // 0 positional (name/group from the Provide options), 1 field of the result object
-	as      int // 0 none, 1 = As(vI0), 2 = As(vI0, vI1); the Go type is then *vA
+	flatten int  // 0 = not flattened, n>0 = flattened slice of n-1 elements
+	form    int  // 0 positional (name/group from the Provide options), 1 field of the result object
+	as      int  // 0 none, 1 = As(vI0), 2 = As(vI0, vI1); the Go type is then *vA
+	whole   bool // decorator result replacing a whole group: a slice without the flatten tag
 }
 
 func (r *vResult) key() vKey { return vKey{t: r.t, name: r.name, group: r.group} }
@@ -233,7 +234,7 @@ func (f *vFunc) layout() {
 			r := f.results[i]
 			f.rField[i] = len(ofields)
 			f.rOut[i] = len(outs)
-			ofields = append(ofields, reflect.StructField{Name: "R" + strconv.Itoa(i), Type: r.goType(), Tag: vTag(r.name, r.group, false, false, r.flatten > 0)})
+			ofields = append(ofields, reflect.StructField{Name: "R" + strconv.Itoa(i), Type: r.goType(), Tag: vTag(r.name, r.group, false, false, r.flatten > 0 && !r.whole)})
 		}
 		outs = append(outs, reflect.StructOf(ofields))
 	}
